@@ -185,17 +185,19 @@ func init() {
 			id := w.concStr(a[0], "known-finding id")
 			c := a[1].(*term.Term)
 			if w.P.Probe == id {
-				// probe mode: explore only inside the region, with the claim asserted
-				if c.IsFalse() {
-					panic(pathAbort{"assume", "outside probed region"})
+				// probe mode: nothing is excluded; remember whether execution is
+				// inside the finding's region so that a violation found next is
+				// attributed to it
+				in := false
+				if c.IsTrue() {
+					in = true
+				} else if !c.IsFalse() {
+					in = w.Branch(c)
 				}
-				if !c.IsTrue() {
-					if !w.replaying && w.checkWith(c) == solver.Unsat {
-						panic(pathAbort{"assume", "outside probed region"})
-					}
-					w.addPC(c)
+				w.probeIn = in
+				if in {
+					w.res.KnownHit[id] = true
 				}
-				w.res.KnownHit[id] = true
 				return w.TF.False
 			}
 			if !w.P.Known[id] {
